@@ -52,6 +52,43 @@ def one(v, explicit, cls, has_type):
     return vv, ev, obs
 
 
+def twice(explicit, versions, cls, same_world):
+    """the SAME SimConfig entry (the user's own dict, with an explicit api_version) started several times - further instances in
+    one world, or a second world built from the same dict (a parameter sweep): every start is judged by the configured
+    version, and the user's dict is left as it was.  Returns None or a violation record."""
+    cfg = {'X': {'python': f'harness.c15sims:{cls}', 'api_version': explicit}}
+    before = json.dumps(cfg, sort_keys=True)
+    seen = []
+    w = None
+    try:
+        for k, v in enumerate(versions):
+            CALLS.clear(); META.clear(); META.update({'models': {}, 'api_version': v})
+            if w is None or not same_world:
+                if w is not None: w.shutdown()
+                w = mosaik.World(cfg, skip_greetings=True)
+            try:
+                w.loop.run_until_complete(simmanager.start(w, 'X', f'X-{k}', 1.0, {})); got = 'started'
+            except ScenarioError:
+                got = 'rejected'
+            except BaseException as e:
+                got = 'crash:' + type(e).__name__
+            want = spec(ver(v), ver(explicit), cls == 'New', False)['start']
+            seen.append((v, got))
+            if got != want:
+                return dict(kind='twice', explicit=explicit, versions=versions, signatures=cls, same_world=same_world,
+                            observed=[f"SimConfig entry with api_version {explicit!r} started {len(versions)} times ({'one world' if same_world else 'one world each'}), announcing {versions}: "
+                                      f"start number {k + 1} (announcing {v}) was {got}, expected {want}; all starts: {seen}"])
+        if json.dumps(cfg, sort_keys=True) != before:
+            return dict(kind='twice', explicit=explicit, versions=versions, signatures=cls, same_world=same_world,
+                        observed=[f'the SimConfig dict of the caller was changed by the starts: {before} -> {json.dumps(cfg, sort_keys=True)}'])
+    finally:
+        if w is not None: w.shutdown()
+    return None
+
+
+TWICE = [('2.2', ['2.2', '2.0'], 'Old'), ('2.2', ['2.2', '2.2', '3.0'], 'Old'), ('3.0', ['3.0', '2.2'], 'New'), ('2.1', ['2.1', '2.1.0', '2.1'], 'Old'), ('3.0', ['2.0', '3.0', '3.1'], 'New')]
+
+
 def spec(vv, ev, compliant, has_type):
     """the statement of C15 in major.minor terms"""
     major = vv[0]; minor = vv[1] if len(vv) > 1 else 0
@@ -114,6 +151,12 @@ def run(out, info, tier, seed):
         if obs != want:
             violations.append(dict(kind='start', version=v, explicit=None, signatures=cls, has_type=True, expected=want, observed=obs,
                                    note='started after a different class of the same qualified name'))
+    ntw = 0
+    for explicit, versions, cls in TWICE:
+        for same_world in (True, False):
+            n += 1; ntw += 1
+            v = twice(explicit, versions, cls, same_world)
+            if v: violations.append(v)
     if model is not None:
         model.close()
         out.add_obligation('correspondence: extracted Adapters model = simmanager.start + adapter chain', not mism, f'{n} configurations')
@@ -121,12 +164,17 @@ def run(out, info, tier, seed):
     for v in violations[:1]: out.violations.append(v)
     out.coverage = {'evaluations': n, 'distinct_nontrivial': nontriv, 'exhaustive': True, 'traces_validated_against_impl': n if model else 0,
                     'rule': f'version strings {VERSIONS} (None = api_version absent) x explicit api_version {{none, same, different, a proper prefix of the announced one, the announced one with one more component}} x stub with {{v3, pre-v3}} signatures x type given or not, in-process; '
-                            'for accepted ones the requests setup_done/step/get_data and a step in which the simulator raises a ValueError are sent through the adapter chain and what reaches the simulator is recorded; non-trivial = accepted with an adapter or a patch level',
+                            'for accepted ones the requests setup_done/step/get_data and a step in which the simulator raises a ValueError are sent through the adapter chain and what reaches the simulator is recorded; non-trivial = accepted with an adapter or a patch level; one SimConfig entry with an explicit api_version started two or three times in one world and in one world each, announcing different versions',
                     'samples': samples, 'monitor_failures': len(violations), 'correspondence_mismatches': len(mism)}
 
 
 def replay(path, out):
     r = json.load(open(path))
+    if r.get('kind') == 'twice':
+        v = twice(r['explicit'], r['versions'], r['signatures'], r['same_world'])
+        print(v['observed'] if v else 'every start was judged by the configured version')
+        if v: print(f'VIOLATION property=C15 replay={path}')
+        return 1 if v else 0
     if r.get('kind') != 'start':
         print(json.dumps(r, indent=1)[:2000]); print('re-run ./check C15'); return 1
     if r.get('note'):
